@@ -339,7 +339,34 @@ func (ex *Exec) deepEq(a, b Value, seen map[[2]*Cell]bool) *T {
 			}
 			return r
 		}
-		// both symbolic: compare through a universally quantified index represented by a fresh symbol
+		// both symbolic; if one side lives in a small concrete array, expand element-wise under guards
+		bound := -1
+		for _, sl := range []Slice{av, bv} {
+			if sl.Arr.Lazy == nil {
+				if o, ok := constOf(sl.Off); ok {
+					if n := len(sl.Arr.Kids) - int(o); bound < 0 || n < bound {
+						bound = n
+					}
+				}
+			}
+		}
+		if bound >= 0 && bound <= 300 {
+			r := C.BAnd(lenEq, C.Ule(av.Len, ex.k64(int64(bound))))
+			for i := 0; i < bound; i++ {
+				ii := ex.k64(int64(i))
+				g := C.Ult(ii, av.Len)
+				if g.IsConst() && g.Val == 0 {
+					break
+				}
+				// guard the reads so that out-of-range positions are never touched
+				var ea, eb Value
+				ea = ex.readOrZero(av, ii)
+				eb = ex.readOrZero(bv, ii)
+				r = C.BAnd(r, C.Implies(g, ex.deepEq(ea, eb, seen)))
+			}
+			return r
+		}
+		// compare through a universally quantified index represented by a fresh symbol
 		ex.nfresh++
 		k := C.Var(fmt.Sprintf("eqidx!%d", ex.nfresh), smt.BV(64))
 		ea := ex.elem(av, k, "deepEq")
@@ -570,4 +597,19 @@ func (ex *Exec) shares(a, b Value) bool {
 		}
 	}
 	return false
+}
+
+// readOrZero reads element i of s without bounds obligations (used under an explicit guard).
+func (ex *Exec) readOrZero(s Slice, i *T) Value {
+	if s.Arr.Lazy != nil {
+		return ex.loadIndexed(s.Arr, ex.C.Add(s.Off, i), "deepEq")
+	}
+	abs := ex.C.Add(s.Off, i)
+	if k, ok := constOf(abs); ok {
+		if k < uint64(len(s.Arr.Kids)) {
+			return ex.loadCell(s.Arr.Kids[k])
+		}
+		return ex.zero(ex.elemType(s.Arr))
+	}
+	return ex.loadIndexed(s.Arr, abs, "deepEq")
 }
